@@ -240,4 +240,76 @@ func rulesC12(c *Ctx) {
 	// ---- clone first ----
 	c.Rule("C12.clonefirst", "RewriteFields works on a clone: no store reaches memory of its receiver or of the mapper")
 	readonly(c, "C12.clonefirst", func(f *types.Func) bool { return FuncName(f) == "(*SelectStatement).RewriteFields" })
+	callScopeC12(c)
+}
+
+// callScopeC12: the per-call type filter does not outlive the call it is for.
+func callScopeC12(c *Ctx) {
+	p := c.P
+	c.Rule("C12.callscope", "a set of data types that RewriteFields creates and then adjusts inside a loop (types added or removed for the function being expanded) is created in the same iteration: no cycle of the control-flow graph passes through an adjustment without passing through the creation, so one call's adjustments cannot leak into the expansion of a later field")
+	f := p.SSAFunc(p.Method("SelectStatement", "RewriteFields"))
+	if f == nil {
+		c.Unk("C12.callscope", "(*SelectStatement).RewriteFields", 0, "anchor not found")
+		return
+	}
+	n := 0
+	for _, b := range f.Blocks {
+		for _, in := range b.Instrs {
+			mk, ok := in.(*ssa.MakeMap)
+			if !ok {
+				continue
+			}
+			mt := mk.Type().Underlying().(*types.Map)
+			if p.TypeStr(mt.Key()) != "DataType" {
+				continue
+			}
+			// adjustment sites
+			var sites []ssa.Instruction
+			for _, ref := range *mk.Referrers() {
+				switch r := ref.(type) {
+				case *ssa.MapUpdate:
+					if r.Map == ssa.Value(mk) && r.Block() != mk.Block() {
+						sites = append(sites, r)
+					}
+				case *ssa.Call:
+					if bi, ok := r.Call.Value.(*ssa.Builtin); ok && bi.Name() == "delete" && len(r.Call.Args) > 0 && r.Call.Args[0] == ssa.Value(mk) {
+						sites = append(sites, r)
+					}
+				}
+			}
+			n++
+			key := fmt.Sprintf("(*SelectStatement).RewriteFields: set of data types #%d", n)
+			leak := ""
+			for _, s := range sites {
+				// can the site's block reach itself without passing the creation?
+				start := s.Block()
+				seen := map[*ssa.BasicBlock]bool{mk.Block(): true}
+				var dfs func(b *ssa.BasicBlock) bool
+				dfs = func(b *ssa.BasicBlock) bool {
+					for _, nx := range b.Succs {
+						if nx == start {
+							return true
+						}
+						if !seen[nx] {
+							seen[nx] = true
+							if dfs(nx) {
+								return true
+							}
+						}
+					}
+					return false
+				}
+				if dfs(start) {
+					leak = p.Pos(s.Pos())
+					break
+				}
+			}
+			if leak != "" {
+				c.Bad("C12.callscope", key, mk.Pos(), "adjusted at "+leak+" inside a loop that does not recreate it: the types added or removed for one function call stay in force for every later field of the statement")
+			} else {
+				c.OK("C12.callscope", key, mk.Pos(), fmt.Sprintf("%d adjustment sites, each iteration starts from a fresh set", len(sites)))
+			}
+		}
+	}
+	c.Floor("C12.callscope", n, 1)
 }
